@@ -979,9 +979,28 @@ impl<'a> TypeEncoder<'a> {
         } else if let Some(existing) = state.current.resources.get(name) {
             return *existing;
         } else if let Some(alias) = resource.alias {
-            // This is an alias to another resource at the same scope
-            let index = state.current.resources
-                [self.0[self.0.resolve_resource(alias.source)].name.as_str()];
+            // This is an alias to another resource at the same scope; when the
+            // aliased resource was used from another interface under the name
+            // of an alias, that alias is what is in scope
+            let mut source = self.0.resolve_resource(alias.source);
+            if !state
+                .current
+                .resources
+                .contains_key(self.0[source].name.as_str())
+            {
+                source = alias.source;
+                while !state
+                    .current
+                    .resources
+                    .contains_key(self.0[source].name.as_str())
+                {
+                    match self.0[source].alias {
+                        Some(alias) => source = alias.source,
+                        None => break,
+                    }
+                }
+            }
+            let index = state.current.resources[self.0[source].name.as_str()];
             let index =
                 Self::export_type(state, name, ComponentTypeRef::Type(TypeBounds::Eq(index)));
             log::debug!("encoded alias for resource `{name}` as type index {index}");
